@@ -76,6 +76,12 @@ pub struct TransSkipVec(#[codec(skip)] Vec<u32>, PhantomData<u8>);
 #[derive(Decode)]
 #[repr(transparent)]
 pub struct TransWithMarker(Tr, Unit);
+#[derive(Decode)]
+#[repr(transparent)]
+pub struct TransTwoMarkers(Tr, Unit, Unit);
+#[derive(Decode)]
+#[repr(transparent)]
+pub struct TransMid(Unit, PhantomData<u16>, Tr, Unit, Unit);
 #[derive(Decode, Encode)]
 pub enum Unit {
 	#[codec(index = 9)]
@@ -365,6 +371,22 @@ fn main() {
 		let mut b6 = vec![2u8 << 2];
 		b6.extend_from_slice(&b5);
 		observe(&format!("Vec<TransWithMarker> second {}", label), move || <Vec<TransWithMarker>>::decode(&mut &b6[..]));
+		unsafe { CASES += 5 };
+	}
+	// ... and a LATER zero-sized field (not the one directly behind the payload)
+	for (label, bytes) in [("second marker bad", vec![0u8, 9, 7]), ("second marker missing", vec![0u8, 9]), ("both fine", vec![0u8, 9, 9])] {
+		let b1 = bytes.clone();
+		observe(&format!("TransTwoMarkers {}", label), move || TransTwoMarkers::decode(&mut &b1[..]));
+		let b2 = bytes.clone();
+		observe(&format!("Box<TransTwoMarkers> {}", label), move || <Box<TransTwoMarkers>>::decode(&mut &b2[..]));
+		let b3 = bytes.clone();
+		observe(&format!("Arc<TransTwoMarkers> {}", label), move || <Arc<TransTwoMarkers>>::decode(&mut &b3[..]));
+		let mut b4 = vec![0u8, 9, 9];
+		b4.extend_from_slice(&bytes);
+		observe(&format!("[TransTwoMarkers; 2] second {}", label), move || <[TransTwoMarkers; 2]>::decode(&mut &b4[..]));
+		let mut b5 = vec![9u8];
+		b5.extend_from_slice(&bytes);
+		observe(&format!("Box<TransMid> {}", label), move || <Box<TransMid>>::decode(&mut &b5[..]));
 		unsafe { CASES += 5 };
 	}
 	// zero-sized payloads behind holders
